@@ -445,8 +445,9 @@ class _Run:
         if not resp["comparable"]:
             # the held value is ==-equal to its recipe but writes another document (it came through a hop that
             # only promises ==): its derivations are not what the recipe's derivations are; not kept
-            ctx.event("derive-not-comparable")
-            ctx.probe("derive-source-writes-another-document")
+            ctx.event("derive-not-comparable", resp.get("same_storage", True))
+            ctx.probe("derive-source-writes-another-document" if resp.get("same_storage", True)
+                      else "derive-source-stores-another-dtype")
             self.call(node, {"op": "drop", "slot": new_slot}, "drop")
             return None
         self.check_verdict(resp["verdict"], f"{P}-DERIVED", f"derive:{method}", base["label"],
@@ -895,7 +896,9 @@ class C11(Check):
         "approximations)",
         "a derived value is compared with the same derivation of a freshly built value only when the held source "
         "writes the same JSON document as the fresh one (a source that came through a repr hop is only promised "
-        "to be ==, and == ignores e.g. WaitGate's qid_shape)",
+        "to be ==, and == ignores e.g. WaitGate's qid_shape) and stores its arrays with the same dtypes (a complex64 "
+        "MatrixGate that came through a nested-list JSON document is complex128; inverse / ** compute in the stored "
+        "precision and MatrixGate.__eq__ is exact)",
         "zero-qubit stabilizer objects (CliffordTableau(0), StabilizerStateChForm(0), Clifford gates built on a "
         "zero-qubit tableau) are degenerate values outside the workload: the generators never build them and a "
         "mutated stored example that yields one is discarded (probe mutated-zero-qubit-stabilizer-discarded)",
